@@ -51,6 +51,7 @@ type Spec struct {
 	Upstream  bool     `json:"upstream"`
 	RealDial  bool     `json:"real_dial"`
 	Handler   bool     `json:"handler"`
+	MITM      bool     `json:"mitm"`
 }
 
 var denyRules = []string{`evil\.test$`, `^blocked\.`, `-^ok\.evil\.test$`}
@@ -90,7 +91,7 @@ func buildMatcher(rules []string) (forwarder.Matcher, error) {
 }
 
 func (s Spec) proxySpec(rig *accessrig.Rig, seen map[string]bool) (accessrig.ProxySpec, forwarder.Matcher, error) {
-	ps := accessrig.ProxySpec{Name: proxyName, DenyLocal: s.DenyLocal, RealDial: s.RealDial, Handler: s.Handler}
+	ps := accessrig.ProxySpec{Name: proxyName, DenyLocal: s.DenyLocal, RealDial: s.RealDial, Handler: s.Handler, MITM: s.MITM}
 	if s.Auth {
 		ps.Basic = url.UserPassword(authUser, authPass)
 	}
@@ -274,8 +275,8 @@ func coqConfig(s Spec, denied []string, aliases []string) string {
 	if s.DenyRules != nil {
 		deny = fmt.Sprintf("(Some (fun h => existsb (str_eqb h) %s))", coqfmt.StrList(denied))
 	}
-	return fmt.Sprintf("Definition %s : config := {| c_name := %s; c_timeframe := %s; c_basic := %s; c_deny_localhost := %s; c_deny := %s; c_aliases := %s; c_mitm := false |}.",
-		cfgName(s), coqfmt.Str(proxyName), coqTF(s.TimeFrame), basic, coqfmt.Bool(s.DenyLocal), deny, coqfmt.StrList(aliases))
+	return fmt.Sprintf("Definition %s : config := {| c_name := %s; c_timeframe := %s; c_basic := %s; c_deny_localhost := %s; c_deny := %s; c_aliases := %s; c_mitm := %s |}.",
+		cfgName(s), coqfmt.Str(proxyName), coqTF(s.TimeFrame), basic, coqfmt.Bool(s.DenyLocal), deny, coqfmt.StrList(aliases), coqfmt.Bool(s.MITM))
 }
 
 type Case struct {
@@ -285,6 +286,9 @@ type Case struct {
 	Index   int                `json:"index"`
 	Req     ReqSpec            `json:"req"`
 	Obs     accessrig.Obs      `json:"obs"`
+	// MITM sessions: Connect is the CONNECT that opened the tunnel, Session the requests sent inside the TLS
+	// session; Index -1 denotes the CONNECT itself
+	Connect *accessrig.RawReq `json:"connect,omitempty"`
 	coq     string
 }
 
@@ -536,6 +540,12 @@ func allSpecs(tier string) []Spec {
 	id++
 	// the http.Handler implementation (TestingHTTPHandler)
 	out = append(out, Spec{ID: id, Auth: true, DenyLocal: true, DenyRules: denyRules, Handler: true})
+	id++
+	// MITM: every CONNECT that passes is answered 200 without dialling, the requests inside the TLS session
+	// go through the same chain
+	out = append(out, Spec{ID: id, Auth: true, DenyLocal: true, DenyRules: denyRules, MITM: true})
+	id++
+	out = append(out, Spec{ID: id, DenyLocal: true, DenyRules: denyRules, TimeFrame: timeFrame, MITM: true})
 	return out
 }
 
@@ -657,6 +667,9 @@ func main() {
 		panic(err)
 	}
 	defer rig.Close()
+	if err := rig.StartTLSOrigin(); err != nil {
+		panic(err)
+	}
 	_, originPort, _ := net.SplitHostPort(rig.OriginAddr())
 
 	var now time.Time
@@ -668,6 +681,8 @@ func main() {
 		clock   [2]int
 		session []accessrig.RawReq
 		reqs    []ReqSpec
+		connect *accessrig.RawReq // MITM: the CONNECT; session = requests inside the TLS session
+		creq    ReqSpec
 	}
 	var jobs []job
 	if *replay != "" {
@@ -679,11 +694,11 @@ func main() {
 		if err := json.Unmarshal(data, &c); err != nil {
 			panic(err)
 		}
-		if len(c.Session) == 0 {
+		if len(c.Session) == 0 && c.Connect == nil {
 			fmt.Println("replay: no session in the replay file (pure-function cases are replayed by the full run)")
 			os.Exit(3)
 		}
-		jobs = append(jobs, job{spec: c.Spec, clock: c.Clock, session: c.Session, reqs: make([]ReqSpec, len(c.Session))})
+		jobs = append(jobs, job{spec: c.Spec, clock: c.Clock, session: c.Session, reqs: make([]ReqSpec, len(c.Session)), connect: c.Connect})
 	} else {
 		budget := 70
 		nclocks := 2
@@ -704,6 +719,47 @@ func main() {
 			}
 			for _, c := range cl {
 				reqs := genRequests(r, s, aliases, budget, originPort)
+				if s.MITM {
+					// (a) tunnels that are established (right credentials, allowed host) carrying 1..4 generated
+					//     requests each; (b) every generated CONNECT on its own, with one inner request
+					all := genRequests(r, s, aliases, 0, originPort)
+					mbudget := 160
+					if *tier == "thorough" {
+						mbudget = len(all)
+					}
+					var connects, inner []ReqSpec
+					for _, q := range all {
+						if q.Method == "CONNECT" {
+							connects = append(connects, q)
+						} else if len(inner) < mbudget {
+							q.Form = "origin"
+							inner = append(inner, q)
+						}
+					}
+					good := ReqSpec{Method: "CONNECT", Host: "example.test:443", Form: "authority", Version: "1.1",
+						Headers: credVariants()[1].lines, CredTag: "exact", HostTag: "plain"}
+					for k := 0; k < len(inner); {
+						craw := good.raw()
+						craw.Inner = ""
+						j := job{spec: s, clock: c, connect: &craw, creq: good}
+						for n := 1 + r.Intn(4); n > 0 && k < len(inner); n, k = n-1, k+1 {
+							j.session = append(j.session, inner[k].raw())
+							j.reqs = append(j.reqs, inner[k])
+						}
+						jobs = append(jobs, j)
+					}
+					if *tier != "thorough" && len(connects) > 40 {
+						connects = connects[:40]
+					}
+					for _, cq := range connects {
+						craw := cq.raw()
+						craw.Inner = ""
+						one := inner[r.Intn(len(inner))]
+						jobs = append(jobs, job{spec: s, clock: c, connect: &craw, creq: cq,
+							session: []accessrig.RawReq{one.raw()}, reqs: []ReqSpec{one}})
+					}
+					continue
+				}
 				// sessions of 1..4 requests on one connection
 				for i := 0; i < len(reqs); {
 					n := 1 + r.Intn(4)
@@ -760,10 +816,20 @@ func main() {
 				denied[j.spec.ID] = map[string]bool{}
 			}
 		}
-		obs := rig.Session(cur, j.session)
+		var obs []accessrig.Obs
+		sess, reqSpecs := j.session, j.reqs
+		if j.connect != nil {
+			co, io := rig.SessionMITM(cur, *j.connect, j.session)
+			// the CONNECT is case -1 of the session: put it in front
+			obs = append([]accessrig.Obs{co}, io...)
+			sess = append([]accessrig.RawReq{*j.connect}, j.session[:len(io)]...)
+			reqSpecs = append([]ReqSpec{j.creq}, j.reqs[:len(io)]...)
+		} else {
+			obs = rig.Session(cur, j.session)
+		}
 		m.Sessions++
 		for i, o := range obs {
-			req, err := accessrig.ParseRaw(j.session[i].Raw)
+			req, err := accessrig.ParseRaw(sess[i].Raw)
 			if err != nil {
 				m.Skipped++
 				continue
@@ -781,15 +847,20 @@ func main() {
 					}
 				}
 			}
-			c := Case{Spec: j.spec, Clock: j.clock, Session: j.session, Index: i, Req: j.reqs[i], Obs: o}
+			c := Case{Spec: j.spec, Clock: j.clock, Session: j.session, Index: i, Req: reqSpecs[i], Obs: o}
+			if j.connect != nil {
+				c.Connect, c.Index = j.connect, i-1
+			}
 			cases = append(cases, c)
 			m.Exchanges++
 			m.ByStatus[fmt.Sprint(o.Status)]++
 			m.ByMethod[req.Method]++
-			m.ByCred[j.reqs[i].CredTag]++
-			m.ByHost[j.reqs[i].HostTag]++
+			m.ByCred[reqSpecs[i].CredTag]++
+			m.ByHost[reqSpecs[i].HostTag]++
 			pos := fmt.Sprint(i)
-			if o.NewConn {
+			if j.connect != nil && i > 0 {
+				pos = "inside-mitm-session-after-" + fmt.Sprint(i-1) + "-exchanges"
+			} else if o.NewConn {
 				pos = "first-on-connection"
 			} else {
 				pos = "after-" + fmt.Sprint(i) + "-exchanges"
@@ -830,7 +901,13 @@ func main() {
 	var xj []any
 	for i := range cases {
 		c := &cases[i]
-		s, ok := coqCase(c.Spec, c.Clock, c.Session[c.Index], c.Obs)
+		raw := accessrig.RawReq{}
+		if c.Index < 0 {
+			raw = *c.Connect
+		} else {
+			raw = c.Session[c.Index]
+		}
+		s, ok := coqCase(c.Spec, c.Clock, raw, c.Obs)
 		if !ok {
 			m.Skipped++
 			continue
@@ -870,7 +947,7 @@ func main() {
 		emit("hcases", "", "hcase", "hcase_model_ok", "always_ok", hc, hj)
 		m.Hostname = len(hc)
 		tc, tj := timeCases()
-		emit("tcases", "", "tcase", "tcase_model_ok", "always_ok", tc, tj)
+		emit("tcases", "", "tcase", "tcase_model_ok", "tcase_prop_ok", tc, tj)
 		m.Time = len(tc)
 	}
 	if len(cases) > 0 {
